@@ -13,7 +13,7 @@ SUITES = {
               'tcpcl_recv', 'tcpcl_handler', 'tcpcl_handler2', 'tcpcl_handler3', 'tcpcl_pump', 'tcpcl_msg',
               'tcpcl_models4', 'tcpcl_raw', 'tcpcl_modulate', 'tcpcl_agent', 'tcpcl_init'],
     'bp': ['bp_types', 'bp_models', 'bp_blocks', 'bp_agent', 'bp_report', 'bp_fwd', 'bp_apps', 'bp_sec'],
-    'udpcl': ['udpcl_types', 'udpcl_agent', 'udpcl_send'],
+    'udpcl': ['udpcl_types', 'udpcl_agent', 'udpcl_send', 'udpcl_range'],
     'btpu': ['btpu_types', 'btpu_agent'],
     'tagent': ['tagent'],
 }
